@@ -21,7 +21,7 @@ import shutil
 
 VERIF = os.path.dirname(os.path.dirname(os.path.abspath(__file__)))
 HARM = os.path.join(VERIF, "harmless")
-EV = "/tmp/harmrun/evidence"
+EV = "/tmp/harmrun/evidence_%d" % os.getpid()
 
 
 def sh(cmd, **kw):
@@ -37,10 +37,20 @@ def run_one(hid):
     sh(["git", "-C", "/repo", "worktree", "add", "--detach", wt, "HEAD"])
     res = dict(id=hid, property=prop, kind=meta.get("kind", ""), what=meta.get("what", ""))
     try:
+        eq = os.path.join(d, "equiv.py")
+        envq = dict(os.environ, PYTHONPATH=wt, OMP_NUM_THREADS="2", OPENBLAS_NUM_THREADS="2", NUMBA_NUM_THREADS="2")
+        dig0 = sh(["/venv/bin/python", eq], env=envq, cwd=wt).stdout.strip().split("\n")[-1] if os.path.exists(eq) else None
         ap = sh(["git", "-C", wt, "apply", os.path.join(d, "patch.diff")])
         if ap.returncode != 0:
             res["error"] = "patch does not apply to /repo HEAD: " + ap.stdout[-300:]
             return res
+        if dig0 is not None:
+            # the change is behaviour-preserving only if its own equivalence program prints the same digest both ways
+            dig1 = sh(["/venv/bin/python", eq], env=envq, cwd=wt).stdout.strip().split("\n")[-1]
+            res["equiv_digest_equal"] = (dig0 == dig1 and len(dig0) >= 32)
+            if not res["equiv_digest_equal"]:
+                res["error"] = "equiv.py digests differ (clean %s, patched %s): not counted as harmless" % (dig0[:16], dig1[:16])
+                return res
         shutil.rmtree(EV, ignore_errors=True)
         env2 = dict(os.environ, SIGPY_REPO=wt, VERIF_EVIDENCE_DIR=EV)
         r = sh([os.path.join(VERIF, "check"), prop, "--tier", "quick"], env=env2, cwd=VERIF)
